@@ -187,9 +187,73 @@ package bw6761
 //@ func G1Affine.FromJacobian
 //@ layer ring fp.Element
 //@ option distribute
+//@ option inline
 //@ alias none
 //@ ensures[infinity] iszero(p1.Z) ==> p.X == 0 && p.Y == 0
 //@ ensures[finite] !iszero(p1.Z) ==> p.X == p1.X*inv(p1.Z)*inv(p1.Z) && p.Y == p1.Y*inv(p1.Z)*inv(p1.Z)*inv(p1.Z)
+//@ ensures[result] result == p
+//@ modifies p
+//@ end
+
+//@ func G1Affine.Add
+//@ layer ring fp.Element
+//@ option distribute
+//@ option nomerge
+//@ option inline-callees DoubleMixed
+//@ ghost ainf = iszero(a.X) && iszero(a.Y)
+//@ ghost binf = iszero(b.X) && iszero(b.Y)
+//@ ghost samex = iszero(a.X - b.X)
+//@ ghost samey = iszero(a.Y - b.Y)
+//@ ghost d = b.X - a.X
+//@ ghost ax = a.X
+//@ ghost ay = a.Y
+//@ ghost bx = b.X
+//@ ghost by = b.Y
+//@ ensures[a-infinity] ainf ==> p.X == bx && p.Y == by
+//@ ensures[b-infinity] !ainf && binf ==> p.X == ax && p.Y == ay
+//@ ensures[opposite] !ainf && !binf && samex && !samey ==> p.X == 0 && p.Y == 0
+//@ ensures[double-x] !ainf && !binf && samex && samey && !iszero(2*ay) ==> p.X * 4*ay*ay == ecDblXNum(ax, ay, 0) * pow(2*ay*inv(2*ay), 2)
+//@ ensures[double-y] !ainf && !binf && samex && samey && !iszero(2*ay) ==> p.Y * 8*ay*ay*ay == ecDblYNum(ax, ay, 0) * pow(2*ay*inv(2*ay), 3)
+//@ ensures[chord-x] !ainf && !binf && !samex && !iszero(2*d) ==> p.X * pow(ecD(ax,ay,bx,by),2) == ecAddXNum(ax,ay,bx,by) * pow(2*d*inv(2*d), 2)
+//@ ensures[chord-y] !ainf && !binf && !samex && !iszero(2*d) ==> p.Y * pow(ecD(ax,ay,bx,by),3) == ecAddYNum(ax,ay,bx,by) * pow(2*d*inv(2*d), 3)
+//@ ensures[result] result == p
+//@ modifies p
+//@ end
+
+//@ func G1Affine.Sub
+//@ layer ring fp.Element
+//@ option distribute
+//@ option nomerge
+//@ option inline-callees DoubleMixed Add
+//@ ghost ainf = iszero(a.X) && iszero(a.Y)
+//@ ghost binf = iszero(b.X) && iszero(-b.Y)
+//@ ghost samex = iszero(a.X - b.X)
+//@ ghost samey = iszero(a.Y + b.Y)
+//@ ghost d = b.X - a.X
+//@ ghost ax = a.X
+//@ ghost ay = a.Y
+//@ ghost bx = b.X
+//@ ghost by = -b.Y
+//@ ensures[a-infinity] ainf ==> p.X == bx && p.Y == by
+//@ ensures[b-infinity] !ainf && binf ==> p.X == ax && p.Y == ay
+//@ ensures[opposite] !ainf && !binf && samex && !samey ==> p.X == 0 && p.Y == 0
+//@ ensures[double-x] !ainf && !binf && samex && samey && !iszero(2*ay) ==> p.X * 4*ay*ay == ecDblXNum(ax, ay, 0) * pow(2*ay*inv(2*ay), 2)
+//@ ensures[double-y] !ainf && !binf && samex && samey && !iszero(2*ay) ==> p.Y * 8*ay*ay*ay == ecDblYNum(ax, ay, 0) * pow(2*ay*inv(2*ay), 3)
+//@ ensures[chord-x] !ainf && !binf && !samex && !iszero(2*d) ==> p.X * pow(ecD(ax,ay,bx,by),2) == ecAddXNum(ax,ay,bx,by) * pow(2*d*inv(2*d), 2)
+//@ ensures[chord-y] !ainf && !binf && !samex && !iszero(2*d) ==> p.Y * pow(ecD(ax,ay,bx,by),3) == ecAddYNum(ax,ay,bx,by) * pow(2*d*inv(2*d), 3)
+//@ ensures[result] result == p
+//@ modifies p
+//@ end
+
+//@ func G1Affine.Double
+//@ layer ring fp.Element
+//@ option distribute
+//@ option nomerge
+//@ option inline-callees DoubleMixed FromAffine
+//@ ghost ax = a.X
+//@ ghost ay = a.Y
+//@ ensures[x] !iszero(2*ay) ==> p.X * 4*ay*ay == ecDblXNum(ax, ay, 0) * pow(2*ay*inv(2*ay), 2)
+//@ ensures[y] !iszero(2*ay) ==> p.Y * 8*ay*ay*ay == ecDblYNum(ax, ay, 0) * pow(2*ay*inv(2*ay), 3)
 //@ ensures[result] result == p
 //@ modifies p
 //@ end
